@@ -178,9 +178,10 @@ class Session:
             res["start"] = "point"
         res["w_start"] = w_start
         if self.multitask and w_init is not None and np.ndim(w_init) == 2 \
-                and (int(self.plan.get("rng_seed", 0)) + self.logical["solves"]) % 2:
+                and int(self.plan.get("rng_seed", 0)) % 2:
             # a user's coefficient array need not be C-ordered (the library's own XW and Y are
-            # Fortran-ordered): every other call hands over Fortran-ordered start arrays
+            # Fortran-ordered): every other *session* hands over Fortran-ordered start arrays
+            # (constant within a session: the crash points of one grid must share their layout)
             w_init = np.asfortranarray(w_init)
             if Xw_init is not None and np.ndim(Xw_init) == 2:
                 Xw_init = np.asfortranarray(Xw_init)
